@@ -24,7 +24,7 @@ C = {
  "C04": ("_compute_arguments_dict_matching_score returns a positive score exactly when the statement's recursive partial-match predicate holds, and a score in (0,1] "
          "then (all inputs, all nestings; recursion through its own contract, three loops by invariant, termination by rank); "
          "_compute_event_comparison_score, whatever the argument matcher answers: no positive score for an external event of another name, for an "
-         "event of another action instance than the one the statement carries, or across Finished / Failed / Started flow events; the declared flow priority scales the score of every kind of event: a result other than the fixed 0 / -1 verdicts is the matcher's score (damped by 0.9 for a StartFlow matcher without flow_id) times the priority",
+         "event of another action instance than the one the statement carries, or across Finished / Failed / Started flow events; the declared flow priority scales the score of every kind of event: a result other than the fixed 0 / -1 verdicts is the matcher's score (damped by 0.9 for a StartFlow matcher without flow_id) times the priority; Action.started_event / updated_event / finished_event (the reference events of `match Action(..).Xxx(..)`) carry the action's start arguments and every argument of the statement, and leave the caller's dict untouched",
          "name / instance / priority rules of _compute_event_comparison_score", "floats are reals; regex engine and comparison operators uninterpreted; "
          "statement-silent zone (1/True/1.0, regex vs non-string) excluded by the `typed` precondition"),
  "C05": ("_resolve_action_conflicts piece by piece (block contracts on the real statements, ghost traces of the events generated / flows aborted): the heads are "
